@@ -12,7 +12,7 @@ through a reachability closure (`reachable`), not through a stack walk.
   5.2.3.1      Single Root Field (subscriptions)    5.5.1.3  Fragments on Composite Types
   5.3.1        Field Selections                     5.5.2.1  Fragment Spread Target Defined
   5.3.3        Leaf Field Selections                5.5.2.2  Fragment Spreads Must Not Form Cycles
-  5.4.1        Argument Names                       5.5.2.3  Fragment Spread Is Possible
+  5.4.1        Argument Names (+ 5.4.2 Uniqueness)  5.5.2.3  Fragment Spread Is Possible
   5.4.2.1      Required Arguments                   5.7.1    Directives Are Defined
   5.6.1        Values of Correct Type               5.7.2    Directives Are in Valid Locations
   5.6.2        Input Object Field Names             5.7.3    Directives Are Unique per Location
@@ -22,7 +22,7 @@ through a reachability closure (`reachable`), not through a stack walk.
                                                     5.8.5    All Variable Usages Are Allowed
   additional rules of `SpecValid` (not implemented by nitrogql, needed for "valid under the specification"):
   5.2.3.1b (no introspection root field in a subscription), 5.3.2 (field merging — a *sufficient* document-wide
-  check), 5.4.2 (argument uniqueness), 5.5.1.4 (fragments must be used), 5.8.4 (all variables used).
+  check), 5.5.1.4 (fragments must be used), 5.8.4 (all variables used).
 
 `kindsOf` is the rule ↔ diagnostic-kind table (DESIGN Appendix C, final version).
 Core Lean only; structurally recursive (kernel-evaluable).
@@ -34,7 +34,7 @@ open NitroVerif.Gql
 
 /-! ### schema view -/
 
-def typenameMeta : FieldDef := { name := "__typename", ty := .nonNull (.named "String" {}) }
+def typenameMeta : FieldDef := { name := "__typename", ty := .nonNull (.named "String" { builtin := true }) }
 
 /-- the field `fname` of the type `parent` in scope (spec 5.3.1: object / interface fields, and the
     `__typename` meta field on object, interface and union types) -/
@@ -264,12 +264,17 @@ def isNullLit : Value → Bool
   | .null _ => true
   | _ => false
 
+/-- `hasNonNullVariableDefaultValue`: a default value exists and is not the `null` literal -/
+def hasNonNullVariableDefault (vd : VarDef) : Bool :=
+  match vd.default with
+  | some d => !isNullLit d
+  | none => false
+
 /-- spec `IsVariableUsageAllowed(variableDefinition, variableUsage)` -/
 def usageAllowed (vd : VarDef) (u : VarUse) : Bool :=
   match u.locTy, vd.ty with
   | .nonNull nullableLoc, .named .. | .nonNull nullableLoc, .list .. =>
-    let hasNonNullVariableDefault := match vd.default with | some d => !isNullLit d | none => false
-    if !hasNonNullVariableDefault && !u.locDefault then false
+    if !hasNonNullVariableDefault vd && !u.locDefault then false
     else areTypesCompatible vd.ty nullableLoc
   | l, v => areTypesCompatible v l
 
@@ -388,7 +393,7 @@ def rule_5_3_3 (S : Schema) (D : Doc) : Bool :=
          (match S.kindOf? fd.ty.unwrapped with
           | some k =>
             if isLeafKind k then sel.isNone
-            else if isCompositeKind k then (match sel with | some (_ :: _) => true | _ => false)
+            else if isCompositeKind k then sel.isSome   -- (the grammar makes a selection set non-empty)
             else true
           | none => true)
        | none => true)
@@ -513,7 +518,7 @@ def rule_5_3_2 (S : Schema) (D : Doc) : Bool :=
 def ruleTable : List (String × (Schema → Doc → Bool)) := [
   ("5.2.1.1", rule_5_2_1_1), ("5.2.2.1", rule_5_2_2_1), ("5.2.3.1", rule_5_2_3_1),
   ("5.3.1", rule_5_3_1), ("5.3.3", rule_5_3_3),
-  ("5.4.1", rule_5_4_1), ("5.4.2.1", rule_5_4_2_1),
+  ("5.4.1", rule_5_4_1), ("5.4.2", rule_5_4_2), ("5.4.2.1", rule_5_4_2_1),
   ("5.6.1", rule_5_6_1), ("5.6.2", rule_5_6_2), ("5.6.3", rule_5_6_3), ("5.6.4", rule_5_6_4),
   ("5.8.1", rule_5_8_1), ("5.8.2", rule_5_8_2), ("5.8.3", rule_5_8_3), ("5.8.5", rule_5_8_5),
   ("5.5.1.1", rule_5_5_1_1), ("5.5.1.2", rule_5_5_1_2), ("5.5.1.3", rule_5_5_1_3),
@@ -525,7 +530,7 @@ def ImplementedRules : List String := ruleTable.map (·.1)
 
 /-- the remaining rules of the specification -/
 def extraRuleTable : List (String × (Schema → Doc → Bool)) := [
-  ("5.2.3.1b", rule_5_2_3_1b), ("5.3.2", rule_5_3_2), ("5.4.2", rule_5_4_2),
+  ("5.2.3.1b", rule_5_2_3_1b), ("5.3.2", rule_5_3_2),
   ("5.5.1.4", rule_5_5_1_4), ("5.8.4", rule_5_8_4)]
 
 def violated (tbl : List (String × (Schema → Doc → Bool))) (S : Schema) (D : Doc) : List String :=
@@ -551,6 +556,7 @@ def kindsOf : String → List ErrKind
   | "5.3.1" => [.FieldNotFound, .SelectionOnInvalidType]
   | "5.3.3" => [.MustSpecifySelectionSet, .SelectionOnInvalidType]
   | "5.4.1" => [.UnknownArgument, .ArgumentsNotNeeded]
+  | "5.4.2" => [.DuplicatedName]
   | "5.4.2.1" => [.RequiredArgumentNotSpecified]
   | "5.6.1" | "5.6.2" | "5.6.3" | "5.6.4" => [.TypeMismatch, .UnknownEnumMember]
   | "5.8.1" => [.DuplicatedVariableName]
@@ -570,14 +576,25 @@ def kindsOf : String → List ErrKind
 
 /-! ### schema sanity (the part of "the schema passed `check`" the theorems and the generators rely on) -/
 
+/-- no type declares a field named `__typename` (part of "names starting with `__` are reserved") -/
+def noReservedFieldsB (S : Schema) : Bool :=
+  S.typeDefs.all fun t => t.fields.all fun f => f.name != "__typename"
+
+/-- the names of the arguments of every field and directive, and of the fields of every input object, are
+    pairwise different -/
+def uniqueArgNamesB (S : Schema) : Bool :=
+  S.typeDefs.all (fun t => nodupB (t.inputs.map (·.name)) && t.fields.all fun f => nodupB (f.args.map (·.name))) &&
+  S.directiveDefs.all fun d => nodupB (d.args.map (·.name))
+
 def schemaValidB (S : Schema) : Bool :=
   let tds := S.typeDefs
+  noReservedFieldsB S && (uniqueArgNamesB S && (
   nodupB (tds.map (·.name)) &&
   nodupB (S.directiveDefs.map (·.name)) &&
   ["Int", "Float", "String", "Boolean", "ID"].all (fun n => S.kindOf? n == some .scalar) &&
   tds.all (fun t =>
     nodupB (t.fields.map (·.name)) && nodupB (t.inputs.map (·.name)) && nodupB (t.values.map (·.name)) &&
-    t.fields.all (fun f => !f.name.startsWith "__" &&
+    t.fields.all (fun f =>
       (match S.kindOf? f.ty.unwrapped with | some k => Schema.isOutputKind k | none => false) &&
       nodupB (f.args.map (·.name)) &&
       f.args.all (fun a => match S.kindOf? a.ty.unwrapped with | some k => Schema.isInputKind k | none => false)) &&
@@ -589,7 +606,7 @@ def schemaValidB (S : Schema) : Bool :=
   [OpKind.query, .mutation, .subscription].all (fun k =>
     match S.typeDef? (S.rootName k) with
     | some t => t.kind == .object
-    | none => k != .query)
+    | none => k != .query)))
 
 def SchemaValid (S : Schema) : Prop := schemaValidB S = true
 
